@@ -46,6 +46,9 @@ COND = Family(
     nt_of=lambda c: int(c["NT"]), compare_final=cmp(("owner", "w", "nh", "out", "nc")),
     configs=[
         ModelCfg("c-n2o3e1", consts(2, 3, 1, COPS), emit=True, check=False, max_scenarios=5000),
+        # three waiters and a notifier; one cancellation (pass-on must go to the NEXT waiter)
+        ModelCfg("c-n4o2e1-w", consts(4, 2, 1, '{"acq", "wait", "notify1"}'), emit=True, check=False,
+                 max_scenarios=8000),
         ModelCfg("c-n3o3e1", consts(3, 3, 1, '{"acq", "wait", "notify1", "notifyall"}'),
                  tiers=("quick",), simulate=1500),
         ModelCfg("c-n3o3e2", consts(3, 3, 2, COPS), tiers=("thorough",), simulate=8000),
